@@ -57,6 +57,9 @@ pub struct MonB {
     pub last_propose_size: u64,
     pub last_propose_normal_only: bool,
     pub reads_answered: u32,
+    pub liveness_rounds: u32,
+    pub liveness_slow: bool,
+    pub handoffs_completed: u32,
     /// (was leader, member, not transferring, true outstanding bytes, proposal bytes) of the last plain propose
     pub last_propose_ctx: Option<(bool, bool, bool, u64, u64)>,
 }
@@ -247,6 +250,10 @@ impl Mon {
         if matches!(kind, CallKind::Advance | CallKind::AdvanceAppend) {
             self.b.last_advance = Some((pre.clone(), post.clone()));
         }
+        // a restored snapshot rebuilds every Progress with the configured window size
+        if pre.pending_snapshot != post.pending_snapshot && post.pending_snapshot.is_some() {
+            self.b.nb[ni].caps.clear();
+        }
         // became leader: reset leadership-scoped ghost
         if post.role == StateRole::Leader && (pre.role != StateRole::Leader || pre.term != post.term) {
             let nb = &mut self.b.nb[ni];
@@ -436,10 +443,10 @@ impl Mon {
             if m.get_msg_type() == MessageType::MsgRequestPreVoteResponse
                 && !m.reject
                 && pre.role == StateRole::PreCandidate
-                && m.term >= pre.term
+                && m.term == pre.term + 1
             {
-                // a grant with m.term == pre.term answers an earlier round of this node; the
-                // crate (like etcd/raft) counts it, and the statement does not exclude it
+                // (a grant with another term answers an earlier pre-campaign of this node: not a vote
+                // of this round - finding F9, fixed)
                 self.b.nb[ni].prevote_grants.insert(m.from);
                 granted_now = true;
             }
@@ -1215,5 +1222,8 @@ impl Mon {
 
     pub fn b_finish(&mut self, _nodes: &[Node], stats: &mut CaseStats) {
         stats.reads_answered = self.b.reads_answered;
+        stats.liveness_rounds = self.b.liveness_rounds;
+        stats.handoffs_completed = self.b.handoffs_completed;
+        stats.liveness_slow = self.b.liveness_slow as u32;
     }
 }
